@@ -30,6 +30,37 @@ Theorem C04_rebase_partial : forall c w e um, plain_env e = true -> wf_table (ks
 Proof. exact C04_rebase_proof. Qed.
 Print Assumptions C04_rebase_partial.
 
+(* the same three facts in direct form: the run returns Fail and the machine state is the
+   initial one -- world untouched, nothing counted, nothing logged; this needs no assumption on
+   the environment (pretend mode, fault plan) because the refusal precedes every mutation *)
+Theorem C04_protect_target_remove : forall c w e um, wf_table (ks_tab (wo_ks w)) = true ->
+  wf_layers c (layers_on_disk c (wo_fs w)) = true ->
+  forall n fl x, lm_get (layers_on_disk c (wo_fs w)) n = Some x ->
+  C04.protected c (ks_tab (wo_ks w)) um x = true ->
+  run e c um (CRemove n fl) (world_of w) = (Fail, MkSt (world_of w) 0 []).
+Proof. exact remove_protected. Qed.
+Print Assumptions C04_protect_target_remove.
+
+Theorem C04_protect_rename_partial : forall c w e um, wf_table (ks_tab (wo_ks w)) = true ->
+  wf_layers c (layers_on_disk c (wo_fs w)) = true ->
+  forall n n2 x, no_error_children (layers_on_disk c (wo_fs w)) n = true ->
+  lm_get (layers_on_disk c (wo_fs w)) n = Some x ->
+  (C04.protected c (ks_tab (wo_ks w)) um x
+   || existsb (fun k => beq (l_base k) n && C04.protected c (ks_tab (wo_ks w)) um k) (layers_on_disk c (wo_fs w))) = true ->
+  run e c um (CRename n n2) (world_of w) = (Fail, MkSt (world_of w) 0 []).
+Proof. exact rename_protected. Qed.
+Print Assumptions C04_protect_rename_partial.
+
+Theorem C04_protect_rebase_partial : forall c w e um, wf_table (ks_tab (wo_ks w)) = true ->
+  wf_layers c (layers_on_disk c (wo_fs w)) = true ->
+  forall n n2 x, no_error_children (layers_on_disk c (wo_fs w)) n = true ->
+  lm_get (layers_on_disk c (wo_fs w)) n = Some x ->
+  (C04.protected c (ks_tab (wo_ks w)) um x
+   || existsb (fun k => beq (l_base k) n && C04.protected c (ks_tab (wo_ks w)) um k) (layers_on_disk c (wo_fs w))) = true ->
+  run e c um (CRebase n n2) (world_of w) = (Fail, MkSt (world_of w) 0 []).
+Proof. exact rebase_protected. Qed.
+Print Assumptions C04_protect_rebase_partial.
+
 (* umount L: refused without a call when a user sits in build/upper/work or the layer is
    overlain; otherwise a mounted layer is not refused without a call *)
 Theorem C04_umount_single_partial : forall c w e um, plain_env e = true -> wf_table (ks_tab (wo_ks w)) = true ->
